@@ -751,3 +751,41 @@ func (e *Exec) headMemOf(snap *loopSnapshot, k string) (*Term, bool) {
 	h, ok := tmp.mem[k]
 	return h, ok
 }
+
+// storeGuards: `schema store-guard <Field> <expr>` in a function's contract:
+// wherever the function assigns that struct field, the expression (over the
+// names in scope there) holds.
+func (e *Exec) storeGuards(st *State, fr *Frame, in *ssa.Store) {
+	if fr.ct == nil || len(fr.ct.Schemas) == 0 {
+		return
+	}
+	fa, ok := in.Addr.(*ssa.FieldAddr)
+	if !ok {
+		return
+	}
+	pt, ok := fa.X.Type().Underlying().(*types.Pointer)
+	if !ok {
+		return
+	}
+	stt, ok := pt.Elem().Underlying().(*types.Struct)
+	if !ok {
+		return
+	}
+	fname := stt.Field(fa.Field).Name()
+	for _, sc := range fr.ct.Schemas {
+		if len(sc) < 3 || sc[0] != "store-guard" || sc[1] != fname {
+			continue
+		}
+		expr := strings.Join(sc[2:], " ")
+		env := &SpecEnv{e: e, st: st, old: fr.entryState, vars: map[string]*Value{}, fn: fr.fn, bound: map[string]*Value{}}
+		env.lookup = e.nameLookup(st, fr, in.Block())
+		e.Assert(fmt.Sprintf("%s/store-guard[%s]", shortName(fr.fn), fname), "post", fr.fn.String(), st, e.evalBool(expr, env), "where "+fname+" is assigned: "+expr)
+	}
+}
+
+func init() {
+	// elem(t): element type of a reflect.Type (slice, array, map, pointer, chan)
+	specFuncs["elem"+"type"] = func(env *SpecEnv, a []*Value) *Value {
+		return &Value{T: env.e.W.reflectType(), L: []*Term{UF("rt_elem", SInt, a[0].One())}}
+	}
+}
